@@ -131,6 +131,7 @@ def monitor(block, impl):
 class C15(PropCheck):
     pid = "C15"
     prop_module = "SigHook.Props.C15"
+    extra_modules = ("SigHook.Props.C15b",)
     assumptions = [
         "actions of one signal run in registration order (C02/C05); raise() delivers synchronously",
         "exit status observed through waitpid of a forked child; an atexit hook in the child writes a marker if exit-time hooks run",
